@@ -1168,7 +1168,12 @@ func ruleR17_1(c *Check) {
 	f := w.F("badger.manifestFile.addChanges")
 	lock := w.Field("badger.manifestFile.appendLock")
 	apply := f.Sites(selCallName(w, "badger.applyChangeSet"))
-	writes := f.Sites(selOr(selCall(w.Func("os.File.Write")), selCallName(w, "badger.manifestFile.rewrite")))
+	// (the append may sit in a helper of addChanges: its call site then stands for it)
+	var writes []ast.Node
+	for _, o := range f.Occs(selCall(w.Func("os.File.Write")), 1) {
+		writes = append(writes, o.Node)
+	}
+	writes = append(writes, f.Sites(selCallName(w, "badger.manifestFile.rewrite"))...)
 	r.Exists(len(apply) == 1 && len(writes) == 2, f, "apply, append and rewrite sites", nil, "expected one applyChangeSet, one fp.Write and one rewrite call")
 	for _, a := range apply {
 		for _, b := range writes {
@@ -1216,8 +1221,9 @@ func ruleR17_2(c *Check) {
 		f := w.F(name)
 		lenOK, crcOK := false, false
 		var body types.Object
-		for _, s := range f.Sites(selCall(put)) {
-			call := s.(*ast.CallExpr)
+		// (SitesInl: the framing may sit in a helper that has its only call site in the writer)
+		for _, o := range f.SitesInl(selCall(put)) {
+			call := o.Node.(*ast.CallExpr)
 			lo, hi, ok := sliceBounds(call.Args[0])
 			if !ok {
 				continue
@@ -1425,9 +1431,13 @@ func ruleR17_6(c *Check) {
 		se, ok := unparen(call.Fun).(*ast.SelectorExpr)
 		return ok && (se.Sel.Name == "Write" || se.Sel.Name == "WriteAt" || se.Sel.Name == "WriteString") && w.fieldOf(se.X) == fp
 	})
-	sites := f.Sites(write)
+	// (depth 1: the write may sit in a helper called from addChanges; the call site then stands for it)
+	var sites []ast.Node
+	for _, o := range f.Occs(write, 1) {
+		sites = append(sites, o.Node)
+	}
 	r.Exists(len(sites) >= 1 && len(f.Sites(selCall(apply))) == 1, f, "apply and append sites", nil, "expected one applyChangeSet call and a write to the manifest file in addChanges")
-	r.DomAll(f, "change set appended only after it was applied", write, 0, selCall(apply), 0)
+	r.DomAll(f, "change set appended only after it was applied", write, 1, selCall(apply), 0)
 	for _, s := range sites {
 		r.Check(w.errNilGuard(f, s, apply), f, "nothing is appended when the apply failed", s, "the file write is reachable although applyChangeSet returned an error")
 	}
@@ -1454,12 +1464,22 @@ func ruleR17_7(c *Check) {
 	if param == nil {
 		panic(anchorError{"changes parameter of manifestFile.addChanges"})
 	}
-	inLoop := func(n ast.Node) bool {
+	// (a site in a helper that has its only call site in addChanges counts as part of addChanges;
+	// it is in a loop if it, or that call, is)
+	var inLoop func(n ast.Node) bool
+	inLoop = func(n ast.Node) bool {
 		for p := w.parentOf(n); p != nil; p = w.parentOf(p) {
 			switch p.(type) {
 			case *ast.ForStmt, *ast.RangeStmt:
 				return true
-			case *ast.FuncLit, *ast.FuncDecl:
+			case *ast.FuncLit:
+				return false
+			case *ast.FuncDecl:
+				if own := w.fnOf(n); own != nil && own.Root() != f {
+					if cs := w.soleCallSite(own.Root()); cs != nil {
+						return inLoop(cs.Node)
+					}
+				}
 				return false
 			}
 		}
@@ -1524,13 +1544,13 @@ func ruleR17_7(c *Check) {
 	}
 	fp := w.Field("badger.manifestFile.fp")
 	writes := 0
-	f.walk(func(x ast.Node) bool {
+	f.walkInl(func(own *Fn, x ast.Node) bool {
 		call, ok := x.(*ast.CallExpr)
 		if !ok {
 			return true
 		}
 		se, ok := unparen(call.Fun).(*ast.SelectorExpr)
-		if !ok || !(se.Sel.Name == "Write" || se.Sel.Name == "WriteAt" || se.Sel.Name == "WriteString") || w.fieldOf(se.X) != fp {
+		if !ok || !(se.Sel.Name == "Write" || se.Sel.Name == "WriteAt" || se.Sel.Name == "WriteString") || (w.fieldOf(se.X) != fp && w.fieldFrom(se.X) != fp) {
 			return true
 		}
 		writes++
@@ -1539,11 +1559,11 @@ func ruleR17_7(c *Check) {
 	})
 	r.Exists(writes == 1, f, "one append", nil, "expected exactly one write to the manifest file in addChanges")
 	// one header: PutUint32 calls outside loops
-	for _, s := range f.Sites(selPred("PutUint32", func(w *World, fn *Fn, n ast.Node) bool {
+	for _, o := range f.SitesInl(selPred("PutUint32", func(w *World, fn *Fn, n ast.Node) bool {
 		call, ok := n.(*ast.CallExpr)
 		return ok && w.Callee(call) != nil && w.Callee(call).Name() == "PutUint32"
 	})) {
-		r.Check(!inLoop(s), f, "one length/CRC header per change set", s, "record headers are built in a loop: one change set becomes several records")
+		r.Check(!inLoop(o.Node), o.SiteFn, "one length/CRC header per change set", o.Node, "record headers are built in a loop: one change set becomes several records")
 	}
 }
 
